@@ -43,7 +43,21 @@ pub fn zone_recs() -> Vec<Rec> {
         r("*.l.t.", t::CNAME, wname("loop.l.t.")),
         r("d.t.", t::NS, wname("ns.d.t.")),
         r("ns.d.t.", t::A, vec![192, 0, 2, 30]),
+        // answers too large for a 512-octet UDP response (three 200-octet
+        // strings): without EDNS the response is truncated (NOERROR, TC)
+        r("*.big.t.", t::TXT, big_txt(b'x')),
+        r("*.big.t.", t::TXT, big_txt(b'y')),
+        r("*.big.t.", t::TXT, big_txt(b'z')),
+        r("big2.t.", t::TXT, big_txt(b'x')),
+        r("big2.t.", t::TXT, big_txt(b'y')),
+        r("big2.t.", t::TXT, big_txt(b'z')),
     ]
+}
+
+fn big_txt(fill: u8) -> Vec<u8> {
+    let mut v = vec![200u8];
+    v.extend(std::iter::repeat(fill).take(200));
+    v
 }
 
 pub fn catalog() -> Arc<Cat> {
@@ -90,6 +104,9 @@ pub struct Kind {
     pub direct_wildcard: bool,
     /// The answer is synthesised from a wildcard.
     pub synthesised: bool,
+    /// Even without rate limiting the response is truncated (TC, no
+    /// records): a slipped response is then indistinguishable from it.
+    pub truncated_baseline: bool,
 }
 
 impl Kind {
@@ -135,6 +152,7 @@ fn kind(name: &'static str, qname: &str, qtype: u16, dress: Dress, tp: Tp, opcod
         direct_wildcard: qname.starts_with('*'),
         synthesised: stream.starts_with('*') && !qname.starts_with('*'),
         stream_name,
+        truncated_baseline: name.ends_with("-truncated"),
     }
 }
 
@@ -165,6 +183,14 @@ pub fn menu() -> Vec<Kind> {
         kind("wild-direct", "*.w.t.", t::A, Plain, u, Q, 0, "*.w.t."),
         kind("wild2-x", "x.v.t.", t::A, Plain, u, Q, 0, "*.v.t."),
         kind("ent-w-nodata", "w.t.", t::A, Plain, u, Q, 0, "w.t."),
+        // wildcard synthesis x truncation: the truncated response (no EDNS)
+        // and the complete one (EDNS) belong to the wildcard's stream
+        kind("wild-big-x-truncated", "x.big.t.", t::TXT, Plain, u, Q, 0, "*.big.t."),
+        kind("wild-big-y-truncated", "y.big.t.", t::TXT, Plain, u, Q, 0, "*.big.t."),
+        kind("wild-big-x-edns", "x.big.t.", t::TXT, Edns, u, Q, 0, "*.big.t."),
+        kind("wild-big-z-A-nodata", "z.big.t.", t::A, Plain, u, Q, 0, "*.big.t."),
+        kind("big2-truncated", "big2.t.", t::TXT, Plain, u, Q, 0, "big2.t."),
+        kind("big2-edns", "BIG2.t.", t::TXT, Edns, u, Q, 0, "big2.t."),
         // ---- NXDOMAIN
         kind("nx1", "nx1.t.", t::A, Plain, u, Q, 3, "nx1.t."),
         kind("nx2-edns", "nx2.t.", t::A, Edns, u, Q, 3, "nx2.t."),
@@ -201,6 +227,7 @@ pub fn menu() -> Vec<Kind> {
         stream_name: vec![0],
         direct_wildcard: false,
         synthesised: false,
+        truncated_baseline: false,
     });
     // QUERY with QDCOUNT 0 (FORMERR).
     v.push(Kind {
@@ -213,6 +240,7 @@ pub fn menu() -> Vec<Kind> {
         stream_name: vec![0],
         direct_wildcard: false,
         synthesised: false,
+        truncated_baseline: false,
     });
     // Ignored messages: QR set; two questions.
     let mut ignored = kind("ignored-qr", "a.t.", t::A, Plain, u, Q, 0, "a.t.");
@@ -337,8 +365,8 @@ impl Env {
                     if m.ext_rcode() != k.rcode {
                         machinery(&format!("menu entry {}: labelled RCODE {} but the server without rate limiting answers {}", k.name, k.rcode, m.ext_rcode()));
                     }
-                    if m.header.tc {
-                        machinery(&format!("menu entry {}: baseline response is truncated", k.name));
+                    if m.header.tc != k.truncated_baseline {
+                        machinery(&format!("menu entry {}: baseline response has TC={} but the entry is labelled truncated={}", k.name, m.header.tc, k.truncated_baseline));
                     }
                 }
                 _ => machinery(&format!("menu entry {}: answered={} but got {:?}", k.name, k.answered, got.as_ref().map(|b| hex(b)))),
